@@ -246,6 +246,10 @@ def run_c04(rep, tier):
     calls += gen.eci_boundary_calls(call, tier == 'quick')
     calls += gen.multipart_boundary_calls(call, tier == 'quick')
     obs = symobs.observe_many(calls, props=['C04'])
+    # one process, in order: symbols of different kinds with the same capacity and the same stream length, alternately
+    sess = gen.same_capacity_sessions(call, gen.rng(common.seed(), 'C04', 'session'), tier == 'quick')
+    obs += symobs.observe_many(sess, props=['C04'], procs=1)
+    calls = calls + sess
     for o in obs:
         o['exp']['req'] = norm_req(o['_call'])
     rep.evaluations += len(calls)
@@ -317,6 +321,10 @@ def run_c05(rep, tier):
         for n in range(5, 18):
             calls.append(call('make', 'ä' * n if enc not in ('utf-8', 'UTF8') else 'ä' * (n // 2), encoding=enc, eci=True, micro=False))
     obs = symobs.observe_many(calls, props=['C05'])
+    # one process, in order: symbols of different kinds with the same capacity and the same stream length, alternately
+    sess = gen.same_capacity_sessions(call, gen.rng(common.seed(), 'C05', 'session'), tier == 'quick')
+    obs += symobs.observe_many(sess, props=['C05'], procs=1)
+    calls = calls + sess
     # every symbol of a sequence is boosted on its own
     for c in (call('make_sequence', 'ABCDEFGHIJKLMNO', symbol_count=2), call('make_sequence', gen.alnum(r, 31), symbol_count=2),
               call('make_sequence', gen.digits(r, 77), symbol_count=3), call('make_sequence', gen.latin1(r, 41), version=1, error='L'),
